@@ -67,6 +67,19 @@ impl Verdict {
     }
 }
 
+thread_local! {
+    static COUNTERS: RefCell<BTreeMap<String, u64>> = const { RefCell::new(BTreeMap::new()) };
+}
+
+/// Adds to a named measurement of this lane (reported under coverage.counters).
+pub fn count(key: &str, n: u64) {
+    COUNTERS.with(|c| *c.borrow_mut().entry(key.to_string()).or_default() += n);
+}
+
+pub fn take_counters() -> BTreeMap<String, u64> {
+    COUNTERS.with(|c| std::mem::take(&mut *c.borrow_mut()))
+}
+
 pub fn fingerprint<T: Hash>(t: &T) -> u64 {
     #[allow(deprecated)]
     let mut h = std::hash::SipHasher::new_with_keys(0x7665_7269_6621, 0x6d64_7772);
@@ -156,6 +169,8 @@ pub struct Failure {
 
 #[derive(Debug, Clone, Default, Serialize, Deserialize)]
 pub struct LaneResult {
+    #[serde(default)]
+    pub counters: BTreeMap<String, u64>,
     pub subs: BTreeMap<String, SubStats>,
     pub failures: Vec<Failure>,
     pub known_hits: BTreeMap<String, String>, // signature -> what
@@ -588,6 +603,7 @@ pub fn boxed<S: Strategy + 'static>(s: S) -> BoxedStrategy<S::Value> {
 // ---------------------------------------------------------------------------
 
 pub struct Merged {
+    pub counters: BTreeMap<String, u64>,
     pub subs: BTreeMap<String, SubStats>,
     pub failures: Vec<Failure>,
     pub known_hits: BTreeMap<String, String>,
@@ -597,6 +613,7 @@ pub struct Merged {
 
 pub fn merge(results: Vec<LaneResult>) -> Merged {
     let mut m = Merged {
+        counters: BTreeMap::new(),
         subs: BTreeMap::new(),
         failures: vec![],
         known_hits: BTreeMap::new(),
@@ -604,6 +621,9 @@ pub fn merge(results: Vec<LaneResult>) -> Merged {
         assumptions: vec![],
     };
     for r in results {
+        for (k, n) in r.counters {
+            *m.counters.entry(k).or_default() += n;
+        }
         for (k, s) in r.subs {
             let d = m.subs.entry(k).or_default();
             d.evaluations += s.evaluations;
@@ -710,6 +730,7 @@ pub fn write_evidence(
             "samples": samples,
             "exhaustive": all_exh,
             "per_sub": per_sub,
+            "counters": m.counters,
             "known_findings_hit": m.known_hits,
         },
         "assumptions": assumptions,
